@@ -15,6 +15,7 @@ import json
 
 TRANSPARENT = {'ParenExpr', 'MaterializeTemporaryExpr', 'CXXBindTemporaryExpr', 'ExprWithCleanups',
                'ConstantExpr', 'CXXDefaultArgExpr', 'CXXDefaultInitExpr', 'FullExpr'}
+FORWARDING_ONLY = {'emplace_back', 'emplace', 'emplace_front', 'make_pair', 'make_tuple', 'make_unique', 'make_shared'}
 # implicit cast kinds that never change a value
 VALUE_PRESERVING_CASTS = {'LValueToRValue', 'NoOp', 'FunctionToPointerDecay', 'ArrayToPointerDecay',
                           'ConstructorConversion', 'DerivedToBase', 'UncheckedDerivedToBase', 'BuiltinFnToFnPtr',
@@ -281,6 +282,8 @@ class Fn:
                     # (passing the value of a pointer variable does not modify that variable)
                     sa = self.strip(a)
                     is_addr = bool(sa) and self.n(sa)['c'] == 'UnaryOperator' and self.n(sa).get('op') == '&'
+                    if mode == 'ref' and nd.get('cn') in FORWARDING_ONLY and str(nd.get('ct', '')).startswith('std::'):
+                        continue        # a forwarding reference (Args &&...) of a constructing call: the argument is only read
                     if mode == 'ref' or (mode == 'ptr' and is_addr):
                         v = self.var_of(a)
                         if v is not None and v in defs:
